@@ -447,6 +447,153 @@ theorem rebuild_wf (r : Nat) : ∀ (k : Nat) (l : List (List κ × Tree κ ν r)
       · intro q hq
         exact hw (g.1 :: q.1, q.2) (mem_groupHeads hne hg hq)
 
+/-! #### permutations of coordinates -/
+
+/-- `guide` lists every rank index below `n` (a permutation of `range n`, as `swizzleRanks`
+    asserts with `sorted(old_rank_ids) == sorted(rank_ids)`) -/
+def GuideOk (n : Nat) (g : List Nat) : Prop :=
+  g.length = n ∧ (∀ i ∈ g, i < n) ∧ (∀ i, i < n → i ∈ g)
+
+def guideOkB (n : Nat) (g : List Nat) : Bool :=
+  g.length == n && g.all (fun i => decide (i < n)) && (List.range n).all (fun i => g.contains i)
+
+theorem guideOkB_iff (n : Nat) (g : List Nat) : guideOkB n g = true ↔ GuideOk n g := by
+  simp [guideOkB, GuideOk, and_assoc]
+
+theorem permute_length {g : List Nat} {p : List κ} (h : ∀ i ∈ g, i < p.length) :
+    (permute g p).length = g.length := by
+  unfold permute
+  induction g with
+  | nil => rfl
+  | cons i g ih =>
+    have hi := h i (List.mem_cons_self ..)
+    have : p[i]? = some p[i] := List.getElem?_eq_getElem hi
+    rw [List.filterMap_cons, this]
+    simp [ih (fun j hj => h j (List.mem_cons_of_mem _ hj))]
+
+theorem permute_append {g : List Nat} {p s : List κ} (h : ∀ i ∈ g, i < p.length) :
+    permute g (p ++ s) = permute g p := by
+  unfold permute
+  apply filterMap_congr'
+  intro i hi
+  exact List.getElem?_append_left (h i hi)
+
+theorem filterMap_getElem?_inj {g : List Nat} {p p' : List κ}
+    (h : ∀ i ∈ g, i < p.length) (h' : ∀ i ∈ g, i < p'.length)
+    (he : g.filterMap (fun i => p[i]?) = g.filterMap (fun i => p'[i]?)) :
+    ∀ i ∈ g, p[i]? = p'[i]? := by
+  induction g with
+  | nil => intro i hi; cases hi
+  | cons j g ih =>
+    have hj := h j (List.mem_cons_self ..)
+    have hj' := h' j (List.mem_cons_self ..)
+    have e1 : p[j]? = some p[j] := List.getElem?_eq_getElem hj
+    have e2 : p'[j]? = some p'[j] := List.getElem?_eq_getElem hj'
+    rw [List.filterMap_cons, List.filterMap_cons, e1, e2] at he
+    simp only [List.cons.injEq] at he
+    intro i hi
+    rcases List.mem_cons.1 hi with rfl | hi
+    · rw [e1, e2, he.1]
+    · exact ih (fun i hi => h i (List.mem_cons_of_mem _ hi)) (fun i hi => h' i (List.mem_cons_of_mem _ hi))
+        he.2 i hi
+
+theorem permute_injective {n : Nat} {g : List Nat} (hg : GuideOk n g) {p p' : List κ}
+    (hp : p.length = n) (hp' : p'.length = n) (he : permute g p = permute g p') : p = p' := by
+  apply List.ext_getElem?
+  intro i
+  by_cases hi : i < n
+  · exact filterMap_getElem?_inj (fun j hj => hp ▸ hg.2.1 j hj) (fun j hj => hp' ▸ hg.2.1 j hj) he i
+      (hg.2.2 i hi)
+  · rw [List.getElem?_eq_none (by omega), List.getElem?_eq_none (by omega)]
+
+theorem permPoint_append {n : Nat} {g : List Nat} (hg : GuideOk n g) {q s : List κ} (hq : q.length = n) :
+    permPoint g (q ++ s) = permute g q ++ s := by
+  unfold permPoint
+  rw [permute_append (fun i hi => hq ▸ hg.2.1 i hi), hg.1, ← hq, List.drop_left]
+
+theorem permute_range : ∀ (n : Nat) (p : List κ), n ≤ p.length → permute (List.range n) p = p.take n
+  | 0, p, _ => by simp [permute]
+  | n + 1, p, h => by
+    have ih := permute_range n p (by omega)
+    unfold permute at ih ⊢
+    rw [List.range_succ, List.filterMap_append, ih]
+    have : p[n]? = some p[n] := List.getElem?_eq_getElem (by omega)
+    rw [List.take_succ, this, List.filterMap_cons, this, List.filterMap_nil]
+    rfl
+
+theorem permPoint_range (n : Nat) (p : List κ) (h : n ≤ p.length) : permPoint (List.range n) p = p := by
+  unfold permPoint
+  rw [permute_range n p h, List.length_range, List.take_append_drop]
+
+theorem below_map_permute (dflt : ν) (r : Nat) {n : Nat} {g : List Nat} (hg : GuideOk n g)
+    (l : List (List κ × Tree κ ν r)) (hl : ∀ q ∈ l, q.1.length = n) :
+    below dflt r (l.map (fun q => (permute g q.1, q.2))) =
+      (below dflt r l).map (fun pv => (permPoint g pv.1, pv.2)) := by
+  induction l with
+  | nil => rfl
+  | cons q l ih =>
+    rw [List.map_cons, below_cons, below_cons, List.map_append,
+      ih (fun q hq => hl q (List.mem_cons_of_mem _ hq)), List.map_map]
+    congr 1
+    apply List.map_congr_left
+    intro pv _
+    simp only [Function.comp]
+    rw [permPoint_append hg (hl q (List.mem_cons_self ..))]
+
+/-- `swizzleRanks` is correct: the result is well-formed and every point has moved to its
+    permuted image (the content is the ascending arrangement of the images) -/
+theorem swizzle_wf_content (dflt : ν) (r k : Nat) (g : List Nat) (hg : GuideOk (k + 1) g)
+    (t : Tree κ ν (r + (k + 1))) (hw : WF (r + (k + 1)) t) :
+    WF (r + (k + 1)) (swizzle r k g t) ∧
+    content dflt (r + (k + 1)) (swizzle r k g t) = swizzleSpec g (content dflt (r + (k + 1)) t) := by
+  unfold swizzle swizzleSpec
+  split
+  · rename_i hid
+    refine ⟨hw, ?_⟩
+    have : (content dflt (r + (k + 1)) t).map (fun pv => (permPoint g pv.1, pv.2)) =
+        content dflt (r + (k + 1)) t := by
+      conv => rhs; rw [← List.map_id (content dflt (r + (k + 1)) t)]
+      apply List.map_congr_left
+      intro pv hpv
+      have := content_point_length dflt _ t pv hpv
+      rw [hid, permPoint_range (k + 1) pv.1 (by omega)]
+      rfl
+    rw [this]
+    exact (isort_eq_self (content_sorted dflt _ t hw)).symm
+  · have hlen : ∀ q ∈ extract r (k + 1) t, q.1.length = k + 1 := extract_length r (k + 1) t
+    have hsort := extract_sorted r (k + 1) t hw
+    have hwf := extract_wf r (k + 1) t hw
+    -- the permuted entries
+    have hL : ∀ q ∈ (extract r (k + 1) t).map (fun q => (permute g q.1, q.2)),
+        q.1.length = k + 1 ∧ WF r q.2 := by
+      intro q hq
+      obtain ⟨q', hq', rfl⟩ := List.mem_map.1 hq
+      refine ⟨?_, hwf q' hq'⟩
+      show (permute g q'.1).length = k + 1
+      rw [permute_length (fun i hi => (hlen q' hq') ▸ hg.2.1 i hi), hg.1]
+    have hne : ((extract r (k + 1) t).map (fun q => (permute g q.1, q.2))).Pairwise
+        (fun a b => a.1 ≠ b.1) := by
+      rw [List.pairwise_map]
+      refine List.Pairwise.imp_of_mem ?_ (sorted_keys_ne hsort)
+      intro a b ha hb hab he
+      exact hab (permute_injective hg (hlen a ha) (hlen b hb) he)
+    have hs := isort_sorted (κ := List κ) _ hne
+    have hp := isort_perm (κ := List κ) ((extract r (k + 1) t).map (fun q => (permute g q.1, q.2)))
+    have hL' : ∀ q ∈ isort (κ := List κ) ((extract r (k + 1) t).map (fun q => (permute g q.1, q.2))),
+        q.1.length = k + 1 ∧ WF r q.2 := fun q hq => hL q (hp.mem_iff.1 hq)
+    have hwfR := rebuild_wf r k _ (fun q hq => (hL' q hq).1) hs (fun q hq => (hL' q hq).2)
+    refine ⟨hwfR, ?_⟩
+    apply content_eq_isort_of_perm hwfR
+    rw [content_rebuild dflt r k _ (fun q hq => (hL' q hq).1)]
+    unfold below
+    refine (List.Perm.flatMap_right _ hp).trans ?_
+    have := below_map_permute dflt r hg (extract r (k + 1) t) hlen
+    unfold below at this
+    rw [this]
+    have hc := content_extract dflt r (k + 1) t
+    unfold below at hc
+    rw [← hc]
+
 end swz
 
 end C09
